@@ -193,3 +193,24 @@ package keeper
 //@   before[C07.sock.prevonce]  setOperatorPrevConsKeyForChainID requires res_getOperatorConsKeyForChainID_0 && !res_getOperatorPrevConsKeyForChainID_0 && arg_opAccAddr == opAccAddr && arg_chainID == chainID
 //@   before[C07.sock.hook]      AfterOperatorKeyReplaced requires res_getOperatorConsKeyForChainID_0 && !res_getOperatorPrevConsKeyForChainID_0 && !genesis
 //@   ensures[C07.sock.removing] true
+
+// ---------------------------------------------------------------------------------------------
+// C07 (a consensus address that was in the validator set stays resolvable until its unbonding has ended): an operator
+// can start leaving an AVS - which initiates the removal of its consensus key, and for a key that is not in the
+// current validator set deletes the reverse lookup at once - only while it is active: opted in, not already opted out
+// and NOT jailed (a jailed operator has left the validator set but is still inside the unbonding window).
+//@ define optKey(op, avs)     = cat(g("x/operator/types.KeyPrefixOperatorOptedAVSInfo"), join(op, avs))
+//@ define optRaw(c, op, avs)  = get(c, "operator", optKey(op, avs))
+//@ define optInfo(c, op, avs) = unm["x/operator/types.OptedInfo"](optRaw(c, op, avs))
+//@ define isActiveOp(c, op, avs) = optRaw(c, op, avs) != nil && optInfo(c, op, avs).OptedOutHeight == 18446744073709551615 && !optInfo(c, op, avs).Jailed
+//@ func (*Keeper).IsActive
+//@   requires len(operatorAddr) > 0
+//@   ensures[C07.ia.spec] result == isActiveOp(ctx, accstr(operatorAddr), avsAddr)
+
+//@ func (*Keeper).OptOut
+//@   requires len(operatorAddress) > 0
+//@   flag noframe
+//@   flag havoc=InitiateOperatorKeyRemovalForChainID,DeleteOperatorUSDValue,HandleOptedInfo
+//@   flag pure=IsAVS,GetChainIDByAVSAddr,IsOperatorFrozen
+//@   ensures[C07.oo.active] err == nil ==> old(isActiveOp(ctx, accstr(operatorAddress), avsAddr))
+//@   before[C07.oo.active] InitiateOperatorKeyRemovalForChainID requires old(isActiveOp(ctx, accstr(operatorAddress), avsAddr))
